@@ -54,6 +54,37 @@ theorem eatIf2_append (a b : Char) (s : List Char) : (eatIf2 a b s).1 ++ (eatIf2
   · split <;> rfl
   · rfl
 
+/-- body of a (nesting) block comment after the opening `/*`: consumes through the `*/` that
+brings the depth to zero, or to the end of input -/
+def scanBlock (s : List Char) : List Char × List Char := go s.length s 1 []
+where go : Nat → List Char → Nat → List Char → List Char × List Char
+  | 0, s, _, acc => (acc.reverse, s)
+  | _, [], _, acc => (acc.reverse, [])
+  | fuel+1, c :: r, depth, acc =>
+    match c, r with
+    | '*', '/' :: r' => if depth ≤ 1 then (('/' :: '*' :: acc).reverse, r') else go fuel r' (depth - 1) ('/' :: '*' :: acc)
+    | '/', '*' :: r' => go fuel r' (depth + 1) ('*' :: '/' :: acc)
+    | _, _ => go fuel r depth (c :: acc)
+
+theorem scanBlock_go_append (fuel : Nat) (s : List Char) (d : Nat) (acc : List Char) :
+    (scanBlock.go fuel s d acc).1 ++ (scanBlock.go fuel s d acc).2 = acc.reverse ++ s := by
+  induction fuel generalizing s d acc with
+  | zero => simp [scanBlock.go]
+  | succ n ih =>
+    cases s with
+    | nil => simp [scanBlock.go]
+    | cons c r =>
+      simp only [scanBlock.go]
+      split
+      · split
+        · simp
+        · rw [ih]; simp
+      · rw [ih]; simp
+      · rw [ih]; simp
+
+theorem scanBlock_append (s : List Char) : (scanBlock s).1 ++ (scanBlock s).2 = s := by
+  simp [scanBlock, scanBlock_go_append]
+
 inductive StrEnd | closed | eol | eof
 deriving DecidableEq, Repr
 
@@ -63,7 +94,7 @@ def scanString (s : List Char) : List Char × List Char × StrEnd := go s false 
 where go : List Char → Bool → List Char → List Char × List Char × StrEnd
   | [], _, acc => (acc.reverse, [], .eof)
   | c :: r, escaped, acc =>
-    if c == '\\' then go r true (c :: acc)
+    if c == '\\' && !escaped then go r true (c :: acc)
     else if c == '"' && !escaped then ((c :: acc).reverse, r, .closed)
     else if c == '\r' || c == '\n' then ((c :: acc).reverse, r, .eol)
     else go r false (c :: acc)
@@ -177,13 +208,28 @@ def armLineComment (c : Char) (r : List Char) : Option Out :=
 def armBlockComment (c : Char) (r : List Char) : Option Out :=
   match c, r with
   | '/', '*' :: r1 =>
-    let sp := splitAt2 '*' '/' r1
-    let e := eatIf2 '*' '/' sp.2
-    some { kind := .BlockComment, text := '/' :: '*' :: (sp.1 ++ e.1), rest := e.2 }
+    let sb := scanBlock r1
+    some { kind := .BlockComment, text := '/' :: '*' :: sb.1, rest := sb.2 }
   | _, _ => none
 
+/-- `Lexer::is_digit_leading_identifier`: digits followed by a letter or `_` form an identifier,
+unless the text is `0x<hex digit>` / `0b<binary digit>` -/
+def isDigitLeadingIdent (first : Char) (rest : List Char) : Bool :=
+  let ad := rest.dropWhile isAsciiDigit
+  let onlyZero := first == '0' && ad.length == rest.length
+  match ad with
+  | [] => false
+  | a :: t =>
+    if a == 'x' && onlyZero && (match t with | c :: _ => isAsciiHex c | [] => false) then false
+    else if a == 'b' && onlyZero && (match t with | c :: _ => c == '0' || c == '1' | [] => false) then false
+    else isIdentStart a
+
 def armDigit (c : Char) (r : List Char) : Option Out :=
-  if isAsciiDigit c then some (lexNumber c r) else none
+  if isAsciiDigit c then
+    if isDigitLeadingIdent c r then
+      some { kind := .Id, text := c :: r.takeWhile isIdentCont, rest := r.dropWhile isIdentCont }
+    else some (lexNumber c r)
+  else none
 
 def armSign (c : Char) (r : List Char) : Option Out :=
   if c == '-' || c == '+' then some (lexNumber c r) else none
